@@ -40,7 +40,8 @@ Related(v, rel) == CASE rel = "same" -> v
                      [] rel = "reserialized" -> Val(v.id, v.sp + 1)
                      [] rel = "modified" -> Val(v.id + 1000, v.sp)
 
-CodeLists == {<<>>, <<256>>, <<512>>, <<256, 512>>}
+\* (lists in every order, with repetitions and with codes of algorithms that are not supported: a list is a list)
+CodeLists == {<<>>, <<256>>, <<512>>, <<256, 512>>, <<512, 256>>, <<3256, 512, 256>>, <<512, 160, 256>>, <<512, 512>>, <<3256, 160>>, <<4114, 256>>}
 InList(a, l) == \E i \in 1..Len(l) : l[i] = a
 
 Cases ==
